@@ -7,8 +7,9 @@ imported ``tenacity`` is the documented stub (no sleeping).  Four exhaustive par
 
  A transparency   every program of the list x transport {http, mem} x threshold {0, = largest batch (externalises it),
                   largest+1 (externalises nothing), never} x upload compression {none, zstd, gzip}: the client-visible
-                  trace (logs, header, batches + user metadata, result, error, end) must equal the trace of the same
-                  call with externalisation off (the statement's "identical to inline delivery").
+                  trace (header, batches + user metadata, result, error, end; and, separately, the ordered log messages)
+                  must equal that of the same call with externalisation off (the statement's "identical to inline
+                  delivery"; the interleaving of a step's trailing log with that step's own batch is not judged).
  B client upload  requests larger than ``max_request_bytes`` (unary params, stream init params, exchange inputs) are
                   uploaded by the real client through server-vended URLs (413 -> OPTIONS -> __upload_url__ -> PUT ->
                   pointer request) x request compression {off, on}: trace equals the inline trace of a server without a
@@ -49,7 +50,7 @@ ENGINE = "E1-SEQ"
 SHARDS = {"quick": 8, "thorough": 16}
 RULE = (
     "A: ~35 script programs (unary/unary_opt/unary_none with logs, returns, raises; producers over 3 output schemas incl. "
-    "dictionary and zero-column, with/without header, 0/1/3/50-row batches, logs, metadata, finish in/after the emit tick, "
+    "dictionary and zero-column, with/without header, 0/1/3/50-row batches, logs before AND after the data batch of a step, metadata, finish in/after the emit tick, "
     "mid-stream raise, partial consumption + close/cancel; exchanges with logs/metadata/nulls/raise, with/without header) "
     "x {http, mem} x thresholds {0, max batch, max batch+1, never} x upload compression {none,zstd,gzip}; B: 4 oversized "
     "request shapes x request compression {off,on}; C: every stored object of 6 (quick) / all (thorough) representative "
@@ -125,6 +126,10 @@ def calls(ctx: Ctx) -> list[Any]:
         Call("exch", {"steps": [[["echo", 5, None]]]}, inputs=[[1], [2]], consume=["take", 1, "cancel"]),
         Call("exch_h", {"hdr": 4, "steps": [[["echo", 2, {"h": "1"}]]]}, inputs=[[7, 8, 9], [1]]),
         Call("exch_h", {"hdr": 5, "init": [L("DEBUG", "d")], "steps": []}, inputs=[list(range(30))]),
+        # a log emitted AFTER the data batch in the same step: the externalised cycle then ends with a log batch
+        Call("produce", {"steps": [[["emit", 50, {"m": "1"}], L("INFO", "after")], [L("DEBUG", "pre"), ["emit", 3, None], L("WARN", "post"), ["finish"]]]}),
+        Call("produce_h", {"hdr": 3, "out": "dict", "steps": [[["emit", 4, None], L("INFO", "after-d")], [["emit", 50, None], L("INFO", "after-e")]]}),
+        Call("exch", {"steps": [[["echo", 2, {"q": "z"}], L("INFO", "post-x")], [L("INFO", "pre-x"), ["echo", 3, None], L("WARN", "post-y")]]}, inputs=[list(range(40)), [3]]),
     ]
     return out
 
@@ -246,7 +251,14 @@ def run_a(ctx: Ctx, case: dict[str, Any], base: list[Any] | None = None, sample:
         nup, nf = len(w.store.uploads), len(w.store.fetches)
     finally:
         w.close()
-    if got != base:
+    # "batches and log messages identical to inline delivery": the ordered non-log events and the ordered log messages are
+    # compared separately.  Whether a log emitted AFTER the data batch of its own step reaches the callback just before or
+    # just after that batch is not stated (an externalised cycle delivers the cycle's logs while it is being resolved);
+    # C08 owns "before the batch it precedes".  The count of such reorderings is reported in the evidence.
+    same = [e for e in got if e[0] != "log"] == [e for e in base if e[0] != "log"] and [e for e in got if e[0] == "log"] == [e for e in base if e[0] == "log"]
+    if same and got != base:
+        ctx.extra["A_log_batch_interleaving_differs"] = ctx.extra.get("A_log_batch_interleaving_differs", 0) + 1
+    if not same:
         i = next((j for j, (x, y) in enumerate(zip(got, base)) if x != y), min(len(got), len(base)))
         ctx.fail(
             f"A:not-transparent:{call.method}",
